@@ -25,16 +25,15 @@ Definition label_lookup_agrees : Prop :=
     end.
 Definition label_lookup_scoped : Prop := forall l A, find_label l = Some A -> scoped_state A.
 
-Lemma checked_graph_sim fuel body :
+Lemma tr_graph_sim body :
   (forall i c, get_chunk G i = Some c -> (0 <= i)%Z) ->
-  chk_block G brkT orgT fuel body 0 (-1) = true ->
+  tr_block G brkT orgT body 0 (-1) ->
   scoped None None body ->
   label_lookup_agrees -> label_lookup_scoped ->
   forall n s, exists m, (n <= m)%nat /\
     run sfinal sstep n (enter body Kstop) s = run gfinal gstep m (ggoto G 0) s.
 Proof.
-  intros Hid Hchk Hsc HL1 HL2 n s.
-  pose proof (check_tr_sound G brkT orgT fuel body Hchk) as Htr.
+  intros Hid Htr Hsc HL1 HL2 n s.
   destruct (block_sim St exec flag_set trainer_beaten cmp_var cmp_var_value case_matches G brkT orgT Hid
               body 0%Z (-1)%Z Kstop s Htr (mc_stop G brkT orgT)) as (j & B & Hsteps & Hm).
   assert (SC : scoped_state (enter body Kstop)) by (apply scoped_enter; [exact Hsc | constructor]).
@@ -43,5 +42,16 @@ Proof.
   exists (j + m)%nat. split; [lia|].
   rewrite (run_steps _ _ _ _ _ _ _ _ _ _ Hsteps m). rewrite R.
   destruct (run gfinal gstep m B s); reflexivity.
+Qed.
+
+Lemma checked_graph_sim fuel body :
+  (forall i c, get_chunk G i = Some c -> (0 <= i)%Z) ->
+  chk_block G brkT orgT fuel body 0 (-1) = true ->
+  scoped None None body ->
+  label_lookup_agrees -> label_lookup_scoped ->
+  forall n s, exists m, (n <= m)%nat /\
+    run sfinal sstep n (enter body Kstop) s = run gfinal gstep m (ggoto G 0) s.
+Proof.
+  intros Hid Hchk. apply tr_graph_sim; [exact Hid|]. exact (check_tr_sound G brkT orgT fuel body Hchk).
 Qed.
 End S.
